@@ -53,6 +53,47 @@ fn cs(rng: &mut Rng) -> Vec<u8> {
     v
 }
 
+fn shuffled<T: Clone>(rng: &mut Rng, xs: &[T], n: usize) -> Vec<T> {
+    let mut v = xs.to_vec();
+    for i in (1..v.len()).rev() {
+        let j = rng.below(i as u64 + 1) as usize;
+        v.swap(i, j);
+    }
+    v.truncate(n.min(v.len()));
+    v
+}
+
+/// SVCB RDATA: priority, a plain target, parameters in ascending key order
+/// whose list values are in random order (the order inside a list is data).
+/// Keys whose text contains '9' or 'z', no-default-alpn, and values with
+/// characters the value writer leaves bare are left to the type sweep
+/// (known deviations there).
+fn svcb(rng: &mut Rng) -> Vec<u8> {
+    let mut v = vec![0, 1 + rng.below(5) as u8];
+    v.extend_from_slice(b"\x03svc\x02ex\x00");
+    let p = |k: u16, val: Vec<u8>| -> Vec<u8> { [k.to_be_bytes().to_vec(), (val.len() as u16).to_be_bytes().to_vec(), val].concat() };
+    if rng.chance(2, 3) {
+        let n = 1 + rng.below(4) as usize;
+        let ids = shuffled(rng, &[&b"h2"[..], b"h3", b"http/1.1", b"dot", b"doq"], n);
+        v.extend(p(1, ids.iter().flat_map(|i| [vec![i.len() as u8], i.to_vec()].concat()).collect()));
+    }
+    if rng.chance(1, 2) { v.extend(p(3, (rng.next() as u16).to_be_bytes().to_vec())); }
+    if rng.chance(1, 2) { let n = 1 + rng.below(4) as usize; v.extend(p(4, rng.bytes(4 * n))); }
+    if rng.chance(1, 4) { let n = 1 + rng.below(20) as usize; v.extend(p(5, rng.bytes(n))); }
+    if rng.chance(1, 2) { let n = 1 + rng.below(3) as usize; v.extend(p(6, rng.bytes(16 * n))); }
+    if rng.chance(1, 2) {
+        let n = 1 + rng.below(5) as usize;
+        let mut gs: Vec<u16> = vec![];
+        while gs.len() < n { let g = rng.next() as u16; if !gs.contains(&g) { gs.push(g); } }
+        v.extend(p(9, gs.iter().flat_map(|g| g.to_be_bytes()).collect()));
+    }
+    if rng.chance(1, 3) {
+        let n = rng.below(6) as usize;
+        v.extend(p(65280 + rng.below(9) as u16, (0..n).map(|_| b'a' + rng.below(26) as u8).collect()));
+    }
+    v
+}
+
 fn main() {
     quiet_panics();
     let args: Vec<String> = std::env::args().collect();
@@ -67,7 +108,7 @@ fn main() {
         let owner = name(&mut rng);
         let class = *rng.pick(&[1u16, 1, 1, 3, 4, 254, 255, 4660]);
         let ttl = *rng.pick(&[0u32, 1, 3600, 86400, 2147483647]);
-        let (rtype, rdata): (u16, Vec<u8>) = match rng.below(11) {
+        let (rtype, rdata): (u16, Vec<u8>) = match rng.below(13) {
             0 | 1 => (16, { let k = 1 + rng.below(3); (0..k).flat_map(|_| cs(&mut rng)).collect() }),
             2 => (13, [cs(&mut rng), cs(&mut rng)].concat()),
             3 => (*rng.pick(&[2u16, 5, 12, 39]), name(&mut rng)),
@@ -84,7 +125,9 @@ fn main() {
                  vec![hash.len() as u8], hash, vec![0, 1, 0x40]].concat() }),
             8 => (48, { let k = 1 + rng.below(40) as usize; [vec![1, 1, 3, 13], rng.bytes(k)].concat() }),
             9 => (61, { let k = 1 + rng.below(40) as usize; rng.bytes(k) }),
-            _ => (43, { let k = 1 + rng.below(40) as usize; [vec![0, 7, 8, 2], rng.bytes(k)].concat() }),
+            10 => (43, { let k = 1 + rng.below(40) as usize; [vec![0, 7, 8, 2], rng.bytes(k)].concat() }),
+            // SVCB / HTTPS with list-valued parameters in random (not sorted) order
+            _ => (*rng.pick(&[64u16, 65]), svcb(&mut rng)),
         };
         let rec = match zf::record_from_wire(&owner, class, ttl, rtype, &rdata) {
             Ok(r) => r,
